@@ -44,11 +44,18 @@ class DM14Server:
         If the command is a read command, then the data requested is sent.
         """
         self._ca.subscribe(self._parse_dm16)
+        state = self.state
+        if (
+            self.command is j1939.Command.WRITE.value
+            and state == ResponseState.SEND_PROCEED
+        ):
+            # state first: the data (DM16) may be processed before the send call returns
+            self.state = ResponseState.WAIT_FOR_DM16
         self._send_dm15(
             self.length,
             self.direct,
             self.status,
-            self.state,
+            state,
             self.object_count,
             self.sa,
             j1939.ParameterGroupNumber.PGN.DM15,
@@ -79,9 +86,9 @@ class DM14Server:
                 )
         elif (
             self.command is j1939.Command.WRITE.value
-            and self.state == ResponseState.SEND_PROCEED
+            and state == ResponseState.SEND_PROCEED
         ):
-            self.state = ResponseState.WAIT_FOR_DM16
+            pass
         else:
             self._ca.unsubscribe(self._parse_dm16)
             self.state = ResponseState.IDLE
@@ -371,8 +378,13 @@ class DM14Server:
             self.state = ResponseState.SEND_PROCEED
         else:
             self.state = ResponseState.SEND_ERROR
+        # (decided before the DM15 is written: the data may already have been processed when that call returns)
+        expect_data = (
+            self.command is j1939.Command.WRITE.value
+            and self.state == ResponseState.SEND_PROCEED
+        )
         self._wait_for_data()
         mem_data = None
-        if self.state == ResponseState.WAIT_FOR_DM16:
+        if expect_data:
             mem_data = self.data_queue.get(block=True, timeout=max_timeout)
         return mem_data
